@@ -65,7 +65,7 @@ func checkLifecycle(r *ev.Run, id string) {
 	if id == "C24" {
 		r.Rule(chaosRule + " Unstaking times 600 s (param changes vary them), block-time steps 1 s - 4000 s so that several completion times are jumped over at once. Oracle over consecutive committed heights + the generator's ledger: a node goes Staked->Unstaking only at a height divisible by BlocksPerSession and only with a cause (an accepted begin-unstake for it, or a forced unstake: jailed longer than MaxJailedBlocks or stake below the minimum); an application only in the block of its own accepted begin-unstake; a record in the Unstaking state is never still there at a height whose block time >= its completion time, never disappears earlier, and in the block where it disappears the node's output address (application's own address) gains at least the stake - exactly the stake when the ledger shows no other flow to that address in the block - and the pool loses it; a Staked record never vanishes. Non-trivial = the history completed at least one node and one application unstaking and had a forced unstake or a jailed node unstaking; distinct = script digest.")
 	} else {
-		r.Rule(chaosRule + " Executed with state snapshots after BeginBlock and after every DeliverTx, and a dispatch request after every Commit. Oracle: (a) slashes happen in BeginBlock: between the previous commit and the post-BeginBlock snapshot the supply falls by exactly the sum of node-token decreases, the node pool falls by the same amount, and no node's tokens go below zero or fall by more than it had; (b) at every snapshot a staked node whose tokens are below the minimum stake is jailed and waiting to unstake (or already unstaking); (c) no dispatch result contains a node that is jailed in the state the session was served from; (d) every ACCEPTED unjail was signed by the operator or output address, the node had at least the minimum stake and the block time had reached JailedUntil (pre-state signing info). Non-trivial = the history had a downtime jailing, evidence slashes (incl. one capped at the stake) and an accepted unjail; distinct = script digest.")
+		r.Rule(chaosRule + " Executed with state snapshots after BeginBlock and after every DeliverTx, and a dispatch request after every Commit. Oracle: (a) slashes happen in BeginBlock: between the previous commit and the post-BeginBlock snapshot the supply falls by exactly the sum of node-token decreases, the node pool falls by the same amount, and no node's tokens go below zero or fall by more than it had; (b) at every snapshot a staked node whose tokens are below the minimum stake is jailed and waiting to unstake (or already unstaking); (c) no dispatch result contains a node that is jailed in the state the session was served from; (d) every ACCEPTED unjail was signed by the operator or output address, the node had at least the minimum stake and the block time had reached JailedUntil (pre-state signing info). Non-trivial = the history had a downtime jailing, evidence slashes (incl. one capped at the stake) and an accepted unjail; distinct = script digest. Second family (cases burn-C-N, keeper bench with real auth and nodes keepers on an IAVL multistore): 2..5 nodes whose stakes sit in the staked pool, then 2..4 Keeper.BurnForChallenge calls on one node sized around what it has left (below one POKT, half, all but 0..2, a little more, double, down to just under the minimum stake), under three feature sets; after every call: the supply fell by no more than the node had and by exactly what its record lost, the staked pool equals the sum of staked and unstaking records, no other record changed, a node left under the minimum is jailed or unstaking. Non-trivial = a burn asked for more than the node had.")
 	}
 	ev.ForEach(nScripts, workers(), func(si int) {
 		if r.Only != "" && r.Only != "*" && r.Only != fmt.Sprint(si) {
@@ -110,6 +110,9 @@ func checkLifecycle(r *ev.Run, id string) {
 			r.Sample(map[string]interface{}{"case": si, "describe": c.Describe(), "blocks_executed": len(res.Blocks()), "first_txs": firstN(c.Ledger, 6)})
 		}
 	})
+	if id == "C25" {
+		c25Burns(r)
+	}
 }
 
 // ---------------------------------------------------------------- C24
